@@ -110,6 +110,7 @@ MUTATIONS = {
         ('compression', 'tonic/src/codec/compression.rs', r'value\.put_slice\(b"identity"\);', 'value.put_slice(b"gzip");', 'identity not advertised'),
     ],
     'C06': [
+        ('clientglue', 'tonic/src/client/grpc.rs', r'max_encoding_message_size: self\.config\.max_encoding_message_size,\n                max_decoding_message_size: self\.config\.max_decoding_message_size,', 'max_encoding_message_size: self.config.max_decoding_message_size,\n                max_decoding_message_size: self.config.max_encoding_message_size,', 'a cloned client swaps its two size limits'),
         ('decode', 'tonic/src/codec/mod.rs', r'const DEFAULT_MAX_RECV_MESSAGE_SIZE: usize = 4 \* 1024 \* 1024;', 'const DEFAULT_MAX_RECV_MESSAGE_SIZE: usize = 4 * 1000 * 1000;', 'default decoding limit is 4 MB instead of 4 MiB'),
         ('decode', 'tonic/src/codec/decode.rs', r'if len > limit \{', 'if len >= limit {', 'limit off by one (decoder)'),
         ('encode', 'tonic/src/codec/encode.rs', r'if len > limit \{', 'if len >= limit {', 'limit off by one (encoder)'),
